@@ -6,6 +6,8 @@ Keys2 == {<<"a">>, <<"d", "/", "b">>}
 Keys3 == {<<"a">>, <<"d", "/", "b">>, <<"a", "b">>}
 Pats5 == {<<"*">>, <<"a", "*">>, <<"d", "/", "*">>, <<"?">>, <<"*", "b">>, <<"x">>}
 Pats2 == {<<"*">>, <<"a", "*">>}
+\* ... plus patterns without any wildcard: a literal key is a pattern too (an expired record must not be listed by it either)
+Pats3 == {<<"*">>, <<"a", "*">>, <<"a">>, <<"d", "/", "b">>}
 \* keys that differ only by a trailing slash, and patterns ending in one
 KeysT == {<<"a">>, <<"a", "/">>}
 PatsT == {<<"*">>, <<"a", "/">>, <<"a", "*">>, <<"*", "/">>, <<"a">>}
